@@ -200,10 +200,13 @@ def check_layout(case, stats):
         if as_text_after != as_text_before:
             raise Violation(case, "the string %r parsed before the file existed and after it was removed again gives different results: %r vs %r" % (
                 path, as_text_after.get("errors"), as_text_before.get("errors")))
+    # lines the parser reported as unexpected are keyword / step / tag / row lines by their looks too (nothing of them is delivered to the builder):
+    # padding them and putting a comment in front of them changes nothing but line numbers either
+    unexpected = [] if base["ok"] else sorted({l for l, c, m in base["errors"] if "got '" in m and 1 <= l <= len(body) and not in_block(l)})
     # T3 trailing blanks
-    if layout_lines:
-        chosen = set(pick(layout_lines))
-        blanks = sel.choice([" ", "  ", "\t", " \t ", "\xa0"])
+    if layout_lines or unexpected:
+        chosen = set(pick(sorted(set(layout_lines) | set(unexpected))))
+        blanks = sel.choice([" ", "  ", "\t", " \t ", "\xa0", "\u3000", " \u2003"])
         t3 = join([b + (blanks if i + 1 in chosen else "") for i, b in enumerate(body)])
         touched = max(touched, len(chosen))
         same(case, "T3 adding trailing blanks to lines %r" % sorted(chosen)[:6], base, outcome(t3, dflt))
@@ -236,7 +239,7 @@ def check_layout(case, stats):
             positions = list(range(1, len(body) + 2))
         else:
             opening = {a for a, b in blocks} | ({l for k, l in base["delivered"] if k == "DocStringSeparator"} - {b for a, b in blocks})
-            positions = [l for l in layout_lines if kind_of[l] != "DocStringSeparator" or l in opening]
+            positions = sorted(set([l for l in layout_lines if kind_of[l] != "DocStringSeparator" or l in opening]) | set(unexpected))
         positions = [p for p in positions if not in_block(p) and not any(p == b for a, b in blocks)]
         seps = [l for k, l in base["delivered"] if k == "DocStringSeparator"]
         if len(seps) % 2 == 1:
@@ -336,12 +339,11 @@ def unit_corpus(a):
             cases.append({"sub": "layout", "text": t, "label": "end-of-text-characters", "choices": [5] * 24})
     from .magnitude import transition_documents
     for i, (n, t) in enumerate(transition_documents(accepted_only=False)):
-        if i % 3 == a["seed"] % 3:
-            cases.append({"sub": "layout", "text": t, "label": "transition:" + n, "choices": [2] * 24})
+        cases.append({"sub": "layout", "text": t, "label": "transition:" + n, "choices": [2] * 24})
     from .c17 import large_sources
     cases.append({"sub": "layout", "text": large_sources()[0], "label": "large-non-ascii-file", "choices": [1] * 24})
     cases.append({"sub": "layout", "text": "\ufeffFeature: bom\n Scenario: s\n  Given x\n", "label": "bom", "choices": [2] * 24})
-    sweep(stats, cases, check_layout)
+    sweep(stats, cases[a.get("part", 0)::a.get("parts", 1)], check_layout)
     return stats
 
 
@@ -351,7 +353,7 @@ def replay(case, stats):
 
 def run(ctx):
     q = ctx.quick
-    ctx.units("corpus", unit_corpus, [{"variants": 3 if q else 12, "seed": ctx.seed}])
+    ctx.units("corpus", unit_corpus, [{"variants": 3 if q else 12, "seed": ctx.seed, "part": p_, "parts": 8} for p_ in range(8)], procs=8)
     ctx.units("model-documents", unit_model, [{"n": 225 if q else 2500, "seed": ctx.seed, "shard": i} for i in range(8 if q else 16)], procs=16)
     ctx.units("noisy-documents", unit_noisy, [{"n": 225 if q else 2500, "seed": ctx.seed, "shard": i} for i in range(8 if q else 16)], procs=16)
     ctx.rule = ("base documents: acceptance corpus (good and bad), generated well-formed documents, noisy documents (accepted or rejected), carriage returns only in CRLF; "
